@@ -80,7 +80,9 @@ package olareg
 //@   ensures [no-5xx-without-fault] w.status >= 500 ==> fault()
 
 //@ func (s *Server) manifestDelete$1(w http.ResponseWriter, r *http.Request)
-//@   props C15 C03 C14
+//@   props C15 C03 C14 C07
+//@   -- deleting a tag leaves the manifest in place, so it stays a referrer of its subject: the response is only updated for a digest
+//@   assert [tag-delete-keeps-referrer]{C07} before call Server.manifestDelete$1$1#1: !re_RefTagRE(arg)
 //@   requires handlerPre(s, w, r)
 //@   requires [name-valid]{C16} nameOK(repoStr)
 //@   ensures [status-class] w.status == 202 || w.status == 400 || w.status == 403 || w.status == 404 || w.status == 500
@@ -128,15 +130,22 @@ package olareg
 //@   ensures [created-on-success] err == nil ==> w.status == (old(w.status) == 0 ? 201 : old(w.status)) && blobReady()
 //@   ensures [fault-monotone] old(fault()) ==> fault()
 
+//@ pred isImageMT(mt) := mt == types.MediaTypeOCI1Manifest || mt == types.MediaTypeDocker2Manifest
+//@ pred isIndexMT(mt) := mt == types.MediaTypeOCI1ManifestList || mt == types.MediaTypeDocker2ManifestList
+
 //@ func (s *Server) manifestPut$1(w http.ResponseWriter, r *http.Request)
-//@   props C15 C04 C09 C14
-//@   requires handlerPre(s, w, r)
+//@   props C15 C04 C09 C14 C02
+//@   requires handlerPre(s, w, r) && !truncated()
 //@   requires [name-valid]{C16} nameOK(repoStr)
 //@   ensures [status-class] w.status == 201 || w.status == 400 || w.status == 403 || w.status == 413 || w.status == 500
 //@   ensures [no-5xx-without-fault] w.status >= 500 ==> fault()
 //@   ensures [refuse-clean]{C04} 400 <= w.status && w.status < 500 ==> mutations() == old(mutations())
 //@   ensures [read-only-refused]{C14} old(*s.conf.Storage.ReadOnly) ==> w.status == 403 && mutations() == old(mutations())
 //@   assert [ack-after-durable]{C09} before "WriteHeader(http.StatusCreated)": blobReady()
+//@   assert [stored-is-whole-body]{C02} before "WriteHeader(http.StatusCreated)": !truncated()
+//@   -- every path to acceptance passes the existence checks; there the media type agrees with the body's own mediaType field
+//@   assert [media-type-consistent-image]{C04} before "s.manifestVerifyImage(": m.MediaType == "" || m.MediaType == mt
+//@   assert [media-type-consistent-index]{C04} before "s.manifestVerifyIndex(": m#2.MediaType == "" || m#2.MediaType == mt
 
 //@ func (s *Server) manifestVerifyImage(repo store.Repo, m types.Manifest) (es []types.ErrorInfo)
 //@   props C04 C15
@@ -181,6 +190,7 @@ package olareg
 //@ func (s *Server) manifestDelete$1$1() (err error)
 //@   props C07 C15
 //@   requires s != nil && repo != nil
+
 //@   ensures [fault-monotone] old(fault()) ==> fault()
 
 //@ -- ------------------------------------------------------------------
